@@ -665,6 +665,52 @@ def _const_int(e):
     return isinstance(e, ast.Constant) and isinstance(e.value, int)
 
 
+def _solver_composite_parameters(ctx, m, fn, loc):
+    """The solver treats subscripts, calls and look-ups as parameters.  One
+    that has an unknown *inside* (x = a[x], x + y = f(y)) makes the equation
+    non-affine, and the 'solution' {x: a[x]} does not satisfy it identically.
+    Necessary condition, in either of two forms: the coefficient collector is
+    told the unknowns (it refuses such leaves itself), or some refusal of the
+    solver is decided by a dependency query that looks inside composite
+    leaves."""
+    told = False
+    descending = set()
+    shallow = 0
+    for st in ast.walk(fn):
+        if isinstance(st, ast.Assign) and isinstance(st.value, ast.Call) and \
+                len(st.targets) == 1 and isinstance(st.targets[0], ast.Name):
+            f_ = ast.unparse(st.value.func).split(".")[-1]
+            kws = {k.arg: ast.unparse(k.value) for k in st.value.keywords}
+            if f_.endswith("DependencyMapper"):
+                inside = kws.get("composite_leaves") == "False" or (
+                    kws.get("include_subscripts") == "False" and
+                    kws.get("include_lookups") == "False" and
+                    kws.get("include_calls") in ("False", "'descend_args'"))
+                if inside:
+                    descending.add(st.targets[0].id)
+                else:
+                    shallow += 1
+            if f_ == "CoefficientCollector" and (st.value.args or kws):
+                told = True
+    if not shallow and not descending:
+        raise AnalysisError("solve_affine_equations_for: dependency mapper not "
+                            "found")
+    guarded = False
+    for st in ast.walk(fn):
+        if isinstance(st, ast.If) and any(isinstance(x, ast.Raise)
+                                          for b in st.body for x in ast.walk(b)):
+            if any(isinstance(c, ast.Call) and isinstance(c.func, ast.Name)
+                   and c.func.id in descending for c in ast.walk(st.test)):
+                guarded = True
+    ok = told or guarded
+    ctx.ob("P/solve_affine/composite-parameters-free-of-unknowns", ok, loc,
+           "a composite parameter with an unknown inside is refused" if ok else
+           "solve_affine_equations_for finds its parameters with composite "
+           "leaves (a[x], f(x) are parameters) and never looks inside them: "
+           "solve(['x'], [(x, a[x])]) answers {x: a[x]}, which does not satisfy "
+           "the equation identically in the remaining parameters")
+
+
 def _solver_refusals(ctx, m, fn, lp, loc):
     """necessary conditions for 'raises when an unknown is not uniquely
     determined' and 'accepted systems are satisfied': some refusal must look at
@@ -900,6 +946,7 @@ def _solver(ctx, model):
            "refusing non-unique or non-unit pivots")
     _solver_assembly(ctx, m, fn, loc)
     _solver_refusals(ctx, m, fn, lp, loc)
+    _solver_composite_parameters(ctx, m, fn, loc)
     # the key dispatch of the matrix assembly ends in a refusal
     # (the if/elif chain on the key variable of the loop over a coefficient
     # mapping's items)
